@@ -355,9 +355,35 @@ def replay_contract(su, sch, harness, name, script):
     return False, ["state at return equals the state at the last condition evaluation"]
 
 
+def search_enumq(su, U, k, K, timeout_s=300, solver="kissat"):
+    """C15 witness for the case queries: a history from new() ending in close() after which <enum>_case / <enum>_cases /
+    new_<enum> violate their contract (the goals of lemmas.lemma_enum evaluated on the reached state)"""
+    import lemmas as L
+    t0 = time.time()
+    h = H.SymHistory(su, U, None)
+    c = h.c
+    h.precreate()
+    for i in range(k):
+        h.sym_call(i)
+    h.sym_close(K, False, lambda g: None, lambda rv: None)
+    ctx2, goal = L.lemma_enum(su, given=(h.ctx, h.I, h.sch, h.m))
+    bound = c.orl([g for g, kk, _ in h.ctx.events if kk in ("bound", "compact")])
+    items = [(lab, l) for lab, l in goal.items if lab.startswith("enumq.") and "_case" in lab.split(":")[0]]
+    bad = c.orl([-l for _, l in items])
+    try:
+        r, model = terms.solve(c, goal.assume + h.assume + [-bound, bad], solver=solver, timeout_s=timeout_s)
+    except terms.SolverError as ex:
+        return None, "solver: %s" % ex
+    if r == "unsat":
+        return None, "no history with U=%d, %d calls, %d iterations after which the case queries misbehave (%d nodes)" % (U, k, K, c.n)
+    script = h.decode(model)
+    vals = c.evaluate([l for _, l in items], model)
+    return script, {"U": U, "k": k, "K": K, "failing": [lab for (lab, _), v in zip(items, vals) if not v][:4], "nodes": c.n}
+
+
 def replay_enum(su, sch, harness, name, script):
-    """C15: after the script (ending in close) <enum>_case(el) must not panic for any element, and the returned constructor
-    applied to the returned arguments must equal el"""
+    """C15: after the script (ending in close) <enum>_case(el) must not panic for any element, and every constructor case
+    returned by <enum>_case / <enum>_cases, applied to its arguments, must equal el"""
     import lemmas as L
     import re as _re
     ets = L.enum_types(su, sch)
@@ -368,30 +394,37 @@ def replay_enum(su, sch, harness, name, script):
     last = dumps[-1]
     failing = []
     nt = set(su.prog.newtypes)
+
+    def last_ret(lines):
+        rc_, out_, err_ = harness.run(name, list(script) + lines, timeout=60)
+        if rc_ != 0:
+            return None, err_.strip().split("\n")[0][:160]
+        return H.normalise_native_ret([e[1] for e in N.parse_output(out_) if e[0] == "ret"][-1], nt), None
     for t, (en, ctors) in sorted(ets.items()):
         n = int(last[("uf", t)].split(" ", 1)[0])
         for i in range(n):
-            rc, out, err = harness.run(name, list(script) + ["%s_case %d" % (t, i)], timeout=60)
-            if rc != 0:
-                failing.append("%s_case(%d) panics after the history: %s" % (t, i, err.strip().split("\n")[0][:160]))
-                continue
-            r = [e[1] for e in N.parse_output(out) if e[0] == "ret"][-1]
-            r = H.normalise_native_ret(r, nt)
-            mm = _re.match(r"^(\w+)(?:\((.*)\))?$", r)
-            vn = mm.group(1)
-            args = _re.findall(r"\d+", mm.group(2) or "")
-            rel = dict(ctors)[vn].name
-            rc2, out2, err2 = harness.run(name, list(script) + [" ".join([rel] + args)], timeout=60)
-            r2 = H.normalise_native_ret([e[1] for e in N.parse_output(out2) if e[0] == "ret"][-1], nt) if rc2 == 0 else "panic"
-            m2 = _re.match(r"^Some\((\d+)\)$", r2)
-            if not m2:
-                failing.append("%s_case(%d) = %s but %s(%s) = %s" % (t, i, r, rel, ", ".join(args), r2))
-                continue
-            rc3, out3, err3 = harness.run(name, list(script) + ["are_equal_%s %s %d" % (t, m2.group(1), i)], timeout=60)
-            r3 = [e[1] for e in N.parse_output(out3) if e[0] == "ret"][-1] if rc3 == 0 else "panic"
-            if r3.strip() != "true":
-                failing.append("%s_case(%d) = %s but %s(%s) = %s is not equal to the element" % (t, i, r, rel, ", ".join(args), r2))
-    return bool(failing), failing
+            for q in ("%s_case" % t, "%s_cases" % t):
+                r, perr = last_ret(["%s %d" % (q, i)])
+                if r is None:
+                    failing.append("%s(%d) panics after the history: %s" % (q, i, perr))
+                    continue
+                cases = _re.findall(r"([A-Z]\w*)(?:\(([^()]*)\))?", r)
+                if not cases:
+                    failing.append("%s(%d) = %s: no constructor case" % (q, i, r))
+                for vn, argstr in cases:
+                    args = _re.findall(r"\d+", argstr or "")
+                    if vn not in dict(ctors):
+                        continue
+                    rel = dict(ctors)[vn].name
+                    r2, _ = last_ret([" ".join([rel] + args)])
+                    m2 = _re.match(r"^Some\((\d+)\)$", r2 or "")
+                    if not m2:
+                        failing.append("%s(%d) yields %s(%s) but %s(%s) = %s" % (q, i, vn, ", ".join(args), rel, ", ".join(args), r2))
+                        continue
+                    r3, _ = last_ret(["are_equal_%s %s %d" % (t, m2.group(1), i)])
+                    if (r3 or "").strip() != "true":
+                        failing.append("%s(%d) yields %s(%s) but %s(%s) = %s is not equal to the element" % (q, i, vn, ", ".join(args), rel, ", ".join(args), r2))
+    return bool(failing), failing[:6]
 
 
 def replay_noalloc(su, sch, harness, name, script):
